@@ -42,6 +42,12 @@ CHECKS = {
                      "plus all five setters in any symbolic order. Counterexamples are decoded from concrete playback and replayed natively (dev and release).",
                 technique="Kani/CBMC proof harness over kani::any() inputs (bit-precise IEEE-754), native replay of counterexamples", design='4/C16', engine='kani',
                 note="Trusted base: Kani 0.68 / CBMC 6.11 (cadical) on the dev-profile build of /repo through a path dependency; unwinding assertions on; kani::cover as reachability witness."),
+    'C12': dict(text="Bounded model checking by CBMC on the compiled crate (dev profile: overflow checks and debug assertions on): for all 22 indicators and periods n<=3 (8), schedule "
+                     "[k x next, reset] for k=0..2, then 3n+3 x next, clone, next on both, with EVERY input an arbitrary f64 bit pattern (NaN, +-inf, subnormals, -0.0; bar fields independent): "
+                     "no Rust panic, no out-of-bounds, no overflow. ChandelierExit/SlowStochastic with EMA::next stubbed (its own harness decides it) and shorter schedules in the quick tier. "
+                     "Counterexamples are decoded from concrete playback and replayed natively.",
+                technique="Kani/CBMC proof harnesses over kani::any() inputs, unwinding assertions on, native replay of counterexamples", design='4/C12', engine='kani',
+                note="Trusted base: Kani 0.68 / CBMC 6.11; stubs listed per family in the evidence (f64::sqrt -> arbitrary value for SD/BB; EMA::next -> arbitrary value inside CE/SlowStochastic)."),
 }
 NA = {
     'C19': "decided by rustc's type checker once and for all; there is no input, state or schedule for an SMT/SAT solver to quantify over",
